@@ -60,7 +60,7 @@ class Arg:
 class Kernel:
     def __init__(self, name, args, ret, body, *, decls="", consts=None, mode="bv", W=None, views=("gcc",),
                  pre=None, claims=None, tags=None, unwind=None, ndebug=False, ref_body=None, desc="",
-                 max_paths=None, vectors=None, allow_ub=False, timeout=None, alt_modes=(), splits=None, prune_timeout_ms=None, guided_seeds=None, terminates=False):
+                 max_paths=None, vectors=None, allow_ub=False, timeout=None, alt_modes=(), splits=None, prune_timeout_ms=None, guided_seeds=None, terminates=False, arg_ranges=None):
         self.name = name
         self.args = [a if isinstance(a, Arg) else Arg(*a) for a in args]
         self.ret = ret
@@ -86,6 +86,7 @@ class Kernel:
         self.prune_timeout_ms = prune_timeout_ms
         self.guided_seeds = guided_seeds
         self.guided_random = None
+        self.arg_ranges = arg_ranges or {}  # {arg: (lo, hi)} interval hints for INT mode; the precondition must imply them
         self.terminates = terminates  # termination claim: a feasible path beyond the unwinding bound is replayed; no return within 5 s = violation
 
     def params_cpp(self):
